@@ -3,6 +3,7 @@ package main
 import (
 	"verif/internal/core"
 
+	_ "verif/internal/props/c03"
 	_ "verif/internal/props/c09"
 	_ "verif/internal/props/c15"
 	_ "verif/internal/props/c19"
